@@ -3,6 +3,7 @@ package openapi
 import (
 	"encoding/json"
 	"fmt"
+	"regexp"
 
 	"github.com/grafana/codejen"
 	"github.com/grafana/cog/internal/ast"
@@ -10,6 +11,9 @@ import (
 	"github.com/grafana/cog/internal/languages"
 	"github.com/grafana/cog/internal/orderedmap"
 )
+
+// componentKeyPattern is what OpenAPI accepts as a key of `components.schemas`.
+var componentKeyPattern = regexp.MustCompile(`^[a-zA-Z0-9._-]+$`)
 
 type Schema struct {
 	Config Config
@@ -46,6 +50,20 @@ func (jenny Schema) generateSchema(context languages.Context, schema *ast.Schema
 	}
 
 	jsonSchema := jsonschemaJenny.GenerateSchema(context, schema)
+
+	// unlike the definitions of a JSON Schema, the components of an OpenAPI
+	// document can not be given any name.
+	if definitions, ok := jsonSchema.Get("definitions").(*orderedmap.Map[string, jsonschema.Definition]); ok {
+		var invalidName string
+		definitions.Iterate(func(name string, _ jsonschema.Definition) {
+			if invalidName == "" && !componentKeyPattern.MatchString(name) {
+				invalidName = name
+			}
+		})
+		if invalidName != "" {
+			return nil, fmt.Errorf("[%s] object '%s' can not be named in an OpenAPI document (only a-z, A-Z, 0-9, '.', '_' and '-' are accepted): rename it", schema.Package, invalidName)
+		}
+	}
 
 	info := orderedmap.New[string, any]()
 	info.Set("title", schema.Package)
